@@ -44,12 +44,12 @@ def run(chk):
         thorough = chk.tier == 'thorough'
         reqs = []   # (line, builder(answer) -> term or None, kind)
         G = B.B64
-        for _ in range(400 if thorough else 120):
+        for _ in range(4000 if thorough else 120):
             a = [rng.choice(G) if rng.chance(2, 3) else rng.next() for _ in range(5)]
             reqs.append(('helper gather_bytes %d %d %d %d %d' % tuple(a),
                          (lambda ans, a=a: '(HGather %d %d %d %d %d %d)' % (tuple(a) + (int(ans.split()[1], 16),))), 'gather'))
         hexb = sorted({v for k in range(0, 17) for v in (16 ** k - 1, 16 ** k, 16 ** k + 1) if 0 <= v < 2 ** 64} | {2 ** 64 - 1, 0})
-        for _ in range(300 if thorough else 100):
+        for _ in range(3000 if thorough else 100):
             a = [rng.choice(hexb) if rng.chance(3, 4) else rng.next() for _ in range(3)]
 
             def mk(ans, a=a):
@@ -80,7 +80,7 @@ def run(chk):
         for e in range(0, 65):
             for d in (-2, -1, 0, 1, 2):
                 xs.add(2 ** e + d)
-        for _ in range(600 if thorough else 150):
+        for _ in range(6000 if thorough else 150):
             k = rng.below(2 ** 26)
             xs.update({k * k, k * k - 1, k * k + 1, rng.below(2 ** 52), rng.next()})
         for x in sorted(v for v in xs if 0 <= v < 2 ** 64):
